@@ -8,7 +8,8 @@ permutation chosen here, and every permutation of the build points is imposed.
 Part "small": build sequences over 8 positions x shuffle off / every
 permutation x metric/tree x leaf size x query sequences over 3 positions x
 radii (numbers and every unit name). Part "large" (c06_large.py): regular
-grids of 200 and 5000 points with the structured permutation family.
+grids of 200 and 5000 points with the structured permutation family. Part
+"many" (c06_many.py): one call with n query points for every n up to a bound.
 """
 import itertools
 import math
@@ -19,7 +20,7 @@ driver.setup_env()
 
 import numpy as np                                    # noqa: E402
 
-from checks import c06_large, c06_model as model      # noqa: E402
+from checks import c06_large, c06_many, c06_model as model   # noqa: E402
 
 PROP = "C06"
 LEVEL = "exploration"
@@ -46,7 +47,7 @@ RULE = ("Small part: build arrays = every sequence (with repetition) of "
         "km), and with these two numbers. One evaluation = one query() "
         "call; all are distinct inputs by construction. Non-trivial = at "
         "least one pair is expected.")
-RULE += " " + c06_large.RULE
+RULE += " " + c06_large.RULE + " " + c06_many.RULE
 ASSUMPTIONS = [
     "the Earth is the sphere of radius typhon.constants.earth_radius",
     "lat, lon are passed as float64 numpy arrays (lists and scalars are "
@@ -195,7 +196,8 @@ def shards(tier, seed):
         total = len(build_inputs(part)) * queries_per_input(part)
         nchunks = min(len(build_inputs(part)), math.ceil(total / 60000))
         out += [("small", part, k, nchunks) for k in range(nchunks)]
-    return out + c06_large.shards(tier, seed)
+    return out + c06_large.shards(tier, seed) + \
+        c06_many.shards(tier, seed)
 
 
 class Small:
@@ -278,13 +280,16 @@ def run_small(res, seam, shard):
 
 def run_shard(shard):
     res = driver.ShardResult()
-    for e in lattice_errors() + c06_large.lattice_errors():
+    for e in lattice_errors() + c06_large.lattice_errors() + \
+            c06_many.lattice_errors():
         res.error(e)
     if res.errors:
         return res
     with model.owned_shuffle() as seam:
         if shard[0] == "large":
             c06_large.run(res, seam, shard, replay)
+        elif shard[0] == "many":
+            c06_many.run(res, seam, shard, replay)
         else:
             run_small(res, seam, shard)
     return res
@@ -314,6 +319,8 @@ def replay(case):
     with model.owned_shuffle() as seam:
         if case["part"] == "large":
             bad = c06_large.replay(seam, case)
+        elif case["part"] == "many":
+            bad = c06_many.replay(seam, case)
         else:
             bad = replay_small(seam, case)
     if bad is None:
